@@ -59,7 +59,7 @@ PROPS = {
  ),
  'C01': dict(
     modules=['SlacProps.C01', 'SlacProps.C01Text', 'SlacProps.C01Source'], translate=True,
-    srcgen={'SrcParser': 'SlacProps.C01Parser'},
+    srcgen={'SrcParser': 'SlacProps.C01Parser', 'SrcScanner': 'SlacProps.C02Scanner'},
     streams=[
         dict(name='parsekinds', n=n(4, 5), view='okfull', oracle='none'),
         dict(name='parse', n=n(40000, 1000000), view='okfull', oracle='none'),
@@ -75,6 +75,7 @@ PROPS = {
  ),
  'C02': dict(
     modules=['SlacProps.C02', 'SlacProps.C02Float', 'SlacProps.C01Source'], translate=True,
+    srcgen={'SrcScanner': 'SlacProps.C02Scanner'},
     streams=[
         dict(name='scanfrag', n=n(3, 4), view='okfull', oracle='none'),
         dict(name='scan', n=n(60000, 2000000), view='okfull', oracle='none'),
@@ -125,7 +126,7 @@ PROPS = {
  ),
  'C07': dict(
     modules=['SlacProps.C07Parser', 'SlacProps.C07Scanner'], translate=True,
-    srcgen={'SrcParser': 'SlacProps.C01Parser'},
+    srcgen={'SrcParser': 'SlacProps.C01Parser', 'SrcScanner': 'SlacProps.C02Scanner'},
     streams=[
         dict(name='scanfrag', n=n(3, 4), view='class', oracle='none', laws=['no_crash']),
         dict(name='parsekinds', n=n(4, 5), view='class', oracle='none', laws=['no_crash']),
@@ -145,7 +146,7 @@ PROPS = {
     trusted=['Rust stack-frame sizes and wall-clock are not expressible in Lean: the depth bound (parse_depth) is proved on the model, the actual stack is observed by the child-process run'],
  ),
  'C10': dict(
-    srcgen={'SrcValidate': 'SlacProps.C10Source', 'SrcEnv': 'SlacProps.C19Source'},
+    srcgen={'SrcValidate': 'SlacProps.C10Source', 'SrcEnv': 'SlacProps.C19Source', 'SrcStdlib': 'SlacProps.C09Source'},
     modules=['SlacProps.C10', 'SlacProps.C10Tables', 'SlacProps.C10Optimize'], regen=True,
     streams=[
         dict(name='dcall', n=n(400, 8000), view='kind', oracle='none', laws=['c10_dcall']),
@@ -171,7 +172,7 @@ PROPS = {
     trusted=[FLOAT_TB],
  ),
  'C13': dict(
-    srcgen={'SrcOrder': 'SlacProps.C13Source'},
+    srcgen={'SrcOrder': 'SlacProps.C13Source', 'SrcStdlib': 'SlacProps.C09Source'},
     modules=['SlacProps.C13'],
     streams=[
         dict(name='cmp', n=n(60000, 2000000), oracle='none'),
@@ -231,6 +232,7 @@ PROPS = {
  ),
  'C09': dict(
     modules=['SlacProps.C09'], regen=True, builds=['default', 'checked', 'zero', 'zerochecked'],
+    srcgen={'SrcStdlib': 'SlacProps.C09Source'},
     streams=[dict(name='call', build=b, n=n(150, 2500), oracle='none', rust_oracle=True, laws=['no_crash'], case_timeout=20.0) for b in ['default', 'checked', 'zero', 'zerochecked']] +
             [dict(name='re', n=n(20000, 500000), oracle='none', laws=['no_crash'])] +
             [dict(name=f'tm{m}', gen=f'py:timegen.py {m}', build='checked', n=n(q, t), oracle='none', laws=['no_crash']) for m, q, t in (('fmt', 3000, 60000), ('parse', 3000, 60000), ('rfc2822', 3000, 60000), ('hand', 0, 0))] +
@@ -275,6 +277,7 @@ PROPS = {
  ),
  'C15': dict(
     modules=['SlacProps.C15', 'SlacProps.C15Float'], builds=['default', 'zero'],
+    srcgen={'SrcStdlib': 'SlacProps.C09Source'},
     streams=[dict(name='call:length,at,copy,insert,find,count,contains,replace,remove,reverse,unique,all,any,split,split_csv,trim,trim_left,trim_right,lowercase,uppercase,same_text', gen='call:length,at,copy,insert,find,count,contains,replace,remove,reverse,unique,all,any,split,split_csv,trim,trim_left,trim_right,lowercase,uppercase,same_text', build=b, n=n(250, 10000), oracle='model', laws=['no_crash']) for b in ('default', 'zero')] +
             [dict(name='poslaw', build=b, n=n(30000, 1000000), model=False, oracle='none', laws=['ok']) for b in ('default', 'zero')] +
             # two look-alike calls of ONE builtin inside one expression (arguments only loosely equal: 1 / true / '1', 0 / -0), through compile + execute + optimize
@@ -308,6 +311,7 @@ PROPS = {
  ),
  'C17': dict(
     modules=['SlacProps.C17', 'SlacProps.C17Debug'], builds=['default', 'debug'],
+    srcgen={'SrcStdlib': 'SlacProps.C09Source'},
     streams=[
         dict(name='call:str,float,int,bool,chr,ord,int_to_hex,even,odd,abs,round,trunc,frac,sqrt,exp,ln,sin,cos,arc_tan,pow', gen='call:str,float,int,bool,chr,ord,int_to_hex,even,odd,abs,round,trunc,frac,sqrt,exp,ln,sin,cos,arc_tan,pow', n=n(400, 20000), oracle='model', laws=['no_crash']),
         dict(name='num', n=n(60000, 2000000), oracle='none'),
